@@ -2,6 +2,7 @@
 
 #include <cmath>
 #include <sstream>
+#include <stdexcept>
 
 #include "coloquinte.hpp"
 
@@ -178,6 +179,15 @@ double interpolateLogEffort(double minVal, double maxVal, int effort,
   return std::exp(interpolateEffort(std::log(minVal), std::log(maxVal), effort,
                                     minEffort, maxEffort));
 }
+
+/**
+ * Refuse an invalid effort before it is used to index the per-effort tables
+ */
+void checkEffort(int effort) {
+  if (effort < 1 || effort > 9) {
+    throw std::runtime_error("Placement effort must be between 1 and 9");
+  }
+}
 }  // namespace
 
 ColoquinteParameters::ColoquinteParameters(int effort, int seed)
@@ -188,6 +198,7 @@ ColoquinteParameters::ColoquinteParameters(int effort, int seed)
 }
 
 RoughLegalizationParameters::RoughLegalizationParameters(int effort) {
+  checkEffort(effort);
   costModel = LegalizationModel::L1;
   nbSteps = 1;
   // TODO: find best parameter
@@ -209,6 +220,7 @@ RoughLegalizationParameters::RoughLegalizationParameters(int effort) {
 }
 
 PenaltyParameters::PenaltyParameters(int effort) {
+  checkEffort(effort);
   // TODO: make cutoff distance smaller at small effort
   cutoffDistance = 40.0;
   cutoffDistanceUpdateFactor = 1.0;
@@ -268,6 +280,7 @@ std::string GlobalPlacerParameters::toString() const {
 }
 
 DetailedPlacerParameters::DetailedPlacerParameters(int effort) {
+  checkEffort(effort);
   nbPasses = std::round(interpolateLogEffort(2.0, 8.0, effort));
   localSearchNbNeighbours = std::round(interpolateLogEffort(2.0, 16.0, effort));
   localSearchNbRows = std::round(interpolateEffort(1.0, 4.0, effort));
